@@ -304,9 +304,15 @@ class Arr:
         for i in range(self.shape[0]):
             yield self[i]
 
+    _isview = False
+
     def _view(self, shape, strides, offset):
         r = type(self)(self._storage, shape, strides, offset, self.dtype, self.kind)
+        r._isview = True
         return r
+
+    def _is_view(self):
+        return self._isview
 
     def _norm_dim(self, d, extra=0):
         n = self.dim() + extra
@@ -496,7 +502,9 @@ class Arr:
                 if i.kind == "int" and i.dim() == 0:
                     i = int(i._as_scalar())
                 elif i.kind == "bool":
-                    raise ShimUnsupported("boolean mask indexing")
+                    if len(idx) != 1:
+                        raise ShimUnsupported("boolean mask combined with other indices")
+                    return [("mask", i)]
             elif isinstance(i, bool):
                 raise ShimUnsupported("bool index")
             out.append(i)
@@ -508,6 +516,20 @@ class Arr:
 
     def __getitem__(self, idx):
         idx = self._index_prepare(idx)
+        if len(idx) == 1 and isinstance(idx[0], tuple) and idx[0][0] == "mask":
+            # x[mask]: the truth of every mask element is decided by forking, so the result has a concrete shape on each path (always a copy)
+            mask = idx[0][1]
+            k = mask.dim()
+            if tuple(mask.shape) != tuple(self.shape[:k]):
+                raise IndexError(f"The shape of the mask {list(mask.shape)} does not match the shape of the indexed tensor {list(self.shape)}")
+            rest = list(self.shape[k:])
+            positions = list(itertools.product(*[range(n) for n in mask.shape]))
+            picked = [pos for pos, mk in zip(positions, mask._flat()) if bool(_to_bool(mk))]
+            flat = []
+            for pos in picked:
+                sub = self[pos] if pos else self
+                flat.extend(sub._flat())
+            return self._like(flat, [len(picked)] + rest)
         adv = [(k, i) for k, i in enumerate(idx) if isinstance(i, (list, Arr))]
         if adv:
             return self._adv_getitem(idx)
